@@ -28,8 +28,13 @@ def plan(tier, seed):
     return [{"part": p, "of": 8} for p in range(8)]
 
 
+USER_CLASSES = []
+
+
 def response_classes():
     from dali import command
+    if not USER_CLASSES:
+        USER_CLASSES.extend(user_response_classes())
     for m in ("gear.general", "gear.led", "gear.emergency", "gear.incandescent", "gear.converter", "gear.colour",
               "device.general", "device.pushbutton", "device.occupancy", "device.light"):
         importlib.import_module("dali." + m)
@@ -41,7 +46,7 @@ def response_classes():
     for base in (command.Response, command.NumericResponse, command.NumericResponseMask, command.YesNoResponse,
                  command.BitmapResponse, command.EnumResponse):
         cls.add(base)
-    return sorted(cls, key=lambda c: (c.__module__, c.__qualname__))
+    return sorted(cls, key=lambda c: (c.__module__, c.__qualname__)) + USER_CLASSES
 
 
 def family(cls):
@@ -60,6 +65,63 @@ def family(cls):
                   and issubclass(k, command.EnumResponse))
         return "enum-custom" if own else "enum"
     return "generic"
+
+
+# accessors that restate part of the answer byte (from the standard's tables of the answer): (class, attribute) -> f(n)
+DERIVED = {
+    ("gear.emergency.QueryEmergencyModeResponse", "mode"): lambda n: ",".join(
+        nm for i, nm in enumerate(["rest mode", "normal mode", "emergency mode", "extended emergency mode", "function test",
+                                   "duration test"]) if (n >> i) & 1),
+    ("gear.colour.QueryColourTypeFeaturesResponse", "primary_n"): lambda n: (n >> 2) & 7,
+    ("gear.colour.QueryColourTypeFeaturesResponse", "RGBWAF_channels"): lambda n: (n >> 5) & 7,
+    ("gear.colour.QueryRBGWAFControlResponse", "control_type"): lambda n: ["channel control", "colour control",
+                                                                          "normalised colour control", "(error)"][(n >> 6) & 3],
+    ("gear.general.QueryStatusResponse", "error"): lambda n: bool(n & 0x43),
+    ("gear.general.QueryFadeTimeAndRateResponse", "fade_time"): lambda n: n >> 4,
+    ("gear.general.QueryFadeTimeAndRateResponse", "fade_rate"): lambda n: n & 15,
+    ("gear.incandescent.FeaturesByte3Response", "dimming_method"): lambda n: ["leading & trailing", "leading only", "trailing only",
+                                                                             "sine wave"][n & 3],
+}
+
+
+def user_response_classes():
+    """Response classes an application may declare from the public bases (a vendor-specific query): they get the family's
+    semantics like the library's own."""
+    import enum as _enum
+    from dali import command
+
+    class VendorStrictResponse(command.Response):
+        _expected = True
+
+    class VendorFlags(command.BitmapResponse):
+        bits = ["alpha", None, "beta gamma", "delta-epsilon", None, None, "zeta", "eta"]
+
+    class VendorCode(_enum.IntEnum):
+        one = 0x01
+        two = 0x02
+        four = 0x04
+        top = 0x80
+
+    class VendorEnumResponse(command.EnumResponse):
+        enumerator = VendorCode
+
+    class VendorStrictEnumResponse(command.EnumResponse):
+        enumerator = VendorCode
+        _expected = True
+
+    class VendorNumber(command.NumericResponse):
+        pass
+
+    class VendorNumberMask(command.NumericResponseMask):
+        pass
+
+    class VendorYesNo(command.YesNoResponse):
+        pass
+    out = [VendorStrictResponse, VendorFlags, VendorEnumResponse, VendorStrictEnumResponse, VendorNumber,
+           VendorNumberMask, VendorYesNo]
+    for c in out:
+        c.__module__ = "dali.application"
+    return out
 
 
 def outcome_name(kind, n):
@@ -215,6 +277,17 @@ def check_outcome(cls, fam, kind, n, res):
                      (fam == "enum-custom" and st == "ok" and not isinstance(v, enum.Enum) and not isinstance(v, int))
                 if not ok:
                     bad(f"value gave {v!r} for a garbled answer; expected ResponseError")
+    if kind == "clean":
+        for (ctag, attr), fn in DERIVED.items():
+            if ctag == tag:
+                res.hit("derived_accessors_checked")
+                try:
+                    gotd = getattr(r, attr)
+                except Exception as e:
+                    gotd = e
+                wantd = fn(n)
+                if isinstance(gotd, Exception) or gotd != wantd or (isinstance(wantd, bool) and bool(gotd) is not wantd):
+                    bad(f".{attr} is {gotd!r} for answer {n:#04x}; the answer byte says {wantd!r}")
     # reading is idempotent: a verdict reported once is the verdict of every later read, also after str()
     def same(a, b):
         return (a[0] == b[0] == "exc" and type(a[1]) is type(b[1])) or (a[0] == b[0] == "ok" and (a[1] is b[1] or a[1] == b[1]))
